@@ -11,7 +11,7 @@ EXPLANATION = (
     "argument on all arms, wait_for_submission pushes its parameter under the blocked_futures mutex; (R2) LIFE-6: "
     "submission, waker and Running are published under one lock region; (R3) Shared::update takes the waker "
     "unconditionally on the (done || IS_MULTISHOT) edge and returns it as Wake, which process wakes; (R4b) "
-    "every successful return of Completions::poll (Ring::poll) is preceded by wake_blocked_futures — directly, or through Shared::enter when all of its Ok returns call it; (R5) wake_blocked_futures conserves wakers (every one "
+    "every successful return of Completions::poll (Ring::poll) is preceded by wake_blocked_futures — directly, or through any crate function all of whose (Ok) returns pass it (least fixpoint over its callers); (R5) wake_blocked_futures conserves wakers (every one "
     "taken is woken or re-queued; loops exit only on exhaustion; no Vec<Waker> dropped/cleared); (R6) "
     "register-then-recheck: on the QueueFull path queue space is re-checked after the waker was registered. "
     "Liveness over all interleavings is not decided (these are necessary conditions)."
